@@ -968,11 +968,28 @@ class Exec:
                     for m in ast.walk(n.target):
                         if isinstance(m, ast.Name):
                             names.add(m.id)
+                    if isinstance(n.iter, ast.Name) and isinstance(n.target, ast.Name) and self.mutates(n.body, n.target.id):
+                        names.add(n.iter.id)  # `for c in xs: c[...] = ...` changes xs through the alias c
                 elif isinstance(n, ast.Call) and isinstance(n.func, ast.Attribute) \
                         and n.func.attr in ("append", "reverse", "extend", "pop", "insert") \
                         and isinstance(n.func.value, ast.Name):
                     names.add(n.func.value.id)
         return names
+
+    def mutates(self, stmts, name):
+        """does the block change the object bound to `name` in place (element store, in-place method)?"""
+        for s in stmts:
+            for n in ast.walk(s):
+                if isinstance(n, (ast.Assign, ast.AugAssign, ast.AnnAssign)):
+                    tgts = n.targets if isinstance(n, ast.Assign) else [n.target]
+                    for t in tgts:
+                        for m in ast.walk(t):
+                            if isinstance(m, ast.Subscript) and isinstance(m.value, ast.Name) and m.value.id == name:
+                                return True
+                if isinstance(n, ast.Call) and isinstance(n.func, ast.Attribute) and isinstance(n.func.value, ast.Name) \
+                        and n.func.value.id == name and n.func.attr in ("append", "reverse", "extend", "pop", "insert", "remove", "sort", "clear"):
+                    return True
+        return False
 
     def stmt_For(self, node, st):
         if node.orelse:
@@ -981,7 +998,18 @@ class Exec:
         # static unrolling over fixed-length tuples
         seqs = self.iter_static(it, st)
         if seqs is not None:
-            yield from self.unroll(node, seqs, 0, st)
+            alias = None
+            if isinstance(it, ast.Name) and isinstance(node.target, ast.Name) and self.mutates(node.body, node.target.id):
+                # `for c in xs:` with the body changing c in place: c is an alias of xs[k].  Modelled by binding c to a
+                # private copy and writing it back into xs[k] after each iteration -- sound only if the body never looks
+                # at xs itself while the copy is out of date
+                cont = st.env.get(it.id)
+                if not (isinstance(cont, TupV) and cont.kind == "list"):
+                    raise Unsupported(f"in-place change of the loop variable of a loop over {cont!r} line {node.lineno}")
+                if any(isinstance(n, ast.Name) and n.id == it.id for b in node.body for n in ast.walk(b)):
+                    raise Unsupported(f"loop body at line {node.lineno} uses {it.id!r} while changing it through its alias")
+                alias = it.id
+            yield from self.unroll(node, seqs, 0, st, alias)
             return
         lid = self.loop_id(node, "for")
         spec = self.c.loops.get(lid)
@@ -1135,16 +1163,35 @@ class Exec:
                 return list(v.items)
         return None
 
-    def unroll(self, node, seq, i, st):
+    def unroll(self, node, seq, i, st, alias=None):
         if i == len(seq):
             yield ("fall", st, None)
             return
         s = st
-        self.assign(node.target, seq[i], s, node)
+        item = seq[i]
+        if alias is not None:
+            item = s.env[alias].items[i]
+            if isinstance(item, SeqV):
+                item = SeqV(item.t, item.kind)       # a distinct Python object for the same value (see stmt_For)
+            elif isinstance(item, TupV):
+                item = TupV(list(item.items), item.kind)
+            else:
+                raise Unsupported(f"alias iteration over {item!r} line {node.lineno}")
+        self.assign(node.target, item, s, node)
+
+        def write_back(env):
+            if alias is not None:
+                cont = env[alias]
+                items = list(cont.items)
+                items[i] = env[node.target.id]
+                env[alias] = TupV(items, cont.kind)
+
         for kind, s2, payload in self.exec_block(node.body, s):
             if kind in ("fall", "continue"):
-                yield from self.unroll(node, seq, i + 1, s2)
+                write_back(s2.env)
+                yield from self.unroll(node, seq, i + 1, s2, alias)
             elif kind == "break":
+                write_back(s2.env)
                 yield ("fall", s2, None)
             else:
                 yield (kind, s2, payload)
